@@ -22,8 +22,14 @@ from __future__ import annotations
 import ast
 
 from harness.common import TranslateError, ast_digest, src_text
-from translate.c18_guard import ACCESS, PURE_OS, _coq_str, _dotted
+from translate.c18_guard import (ACCESS, PURE_OS, _coq_ident, _coq_str, _dotted, resolve_method_name, shared_state_census,
+                                  wrapper_census)
 
+# keyword spelling of the path argument of the OS calls
+PATH_KEYWORDS = {'open': ('file',), 'io.open': ('file',), 'os.open': ('path',), 'os.walk': ('top',), 'os.stat': ('path',),
+                 'os.lstat': ('path',), 'os.listdir': ('path',), 'os.scandir': ('path',), 'os.path.isfile': ('path',),
+                 'os.path.isdir': ('s',), 'os.path.exists': ('path',), 'os.path.lexists': ('path',),
+                 'os.path.getmtime': ('filename',), 'os.path.getsize': ('filename',)}
 STR_PARAMS = {'name', 'folder', 'path', 'filename'}
 OTHER = ('other',)
 HANDLE = ('handle',)
@@ -38,8 +44,15 @@ def S(p: str) -> tuple:
 class _Interp:
     """Abstract interpretation of one method."""
 
-    def __init__(self, cls: str, fn: ast.FunctionDef, chain: bool) -> None:
+    def __init__(self, cls: str, fn: ast.FunctionDef, chain: bool, helpers: dict | None = None,
+                 consts: dict | None = None, resolve: str = '_resolve_path') -> None:
         self.cls, self.fn, self.chain = cls, fn, chain
+        self.resolve = resolve                                 # name of the method that decides containment
+        self.module_funcs: dict[str, ast.FunctionDef] = (helpers or {}).get('=module', {}) if helpers else {}
+        self.helpers = helpers or {}                           # methods of the same class, inlined at `self.m(...)` calls
+        self.consts = consts or {}                             # module-level NAME = 'string constant'
+        self.stack: list[str] = [fn.name]                      # methods being inlined (recursion fails closed)
+        self.returns: list[list] = []                          # abstract return values of the helper being inlined
         self.sites: list[tuple[str, str, int, str]] = []       # callee, branch, line, pexp
         self.stores: list[tuple[str, str]] = []                # path pexp, data pexp
         self.validated: list[str] = []                         # pexps given to _resolve_path, in order
@@ -61,7 +74,7 @@ class _Interp:
                 env[arg.arg] = frozenset([HANDLE])
             elif 'File' in ann and 'str' in ann:
                 env[arg.arg] = frozenset([S('PArg'), HANDLE])
-            elif arg.arg in STR_PARAMS and ann in ('str', 'StringPath', ''):
+            elif ann in ('str', 'StringPath') or (ann == '' and arg.arg in STR_PARAMS):
                 env[arg.arg] = frozenset([S('PArg')])
             else:
                 env[arg.arg] = frozenset([OTHER])
@@ -72,6 +85,8 @@ class _Interp:
         """Abstract value of an expression (also records access sites / stores found inside it)."""
         d = _dotted(n)
         if isinstance(n, ast.Name):
+            if n.id not in env and n.id in self.consts:
+                return frozenset([S(f'(PLit {_coq_str(self.consts[n.id])})')])
             return env.get(n.id, frozenset([OTHER]))
         if d == 'self.path':
             return frozenset([S('PSelfRoot')])
@@ -86,9 +101,27 @@ class _Interp:
             return frozenset([OTHER])
         if isinstance(n, ast.Call):
             return self.call(n, env)
-        if isinstance(n, (ast.BoolOp, ast.Compare, ast.UnaryOp, ast.BinOp, ast.IfExp, ast.JoinedStr, ast.Tuple, ast.List,
-                          ast.Subscript, ast.ListComp, ast.GeneratorExp, ast.Starred, ast.FormattedValue, ast.Set,
-                          ast.Dict, ast.Yield, ast.comprehension, ast.Slice)):
+        if isinstance(n, (ast.ListComp, ast.SetComp, ast.GeneratorExp, ast.DictComp)):
+            e2 = dict(env)                    # the loop variables are bound like those of a `for` statement
+            for g in n.generators:
+                self.bind(g.target, self.elements(g.iter, e2), e2)
+                for c in g.ifs:
+                    self.ev(c, e2)
+            for part in ([n.key, n.value] if isinstance(n, ast.DictComp) else [n.elt]):
+                self.ev(part, e2)
+            return frozenset([OTHER])
+        if isinstance(n, ast.IfExp):          # `a if isinstance(x, File) else b`: narrowed like the statement form
+            et, ef, live_t, live_f = self.narrow(n.test, env)
+            vals: frozenset = frozenset()
+            if live_t:
+                vals |= self.ev(n.body, et)
+            if live_f:
+                vals |= self.ev(n.orelse, ef)
+            return vals or frozenset([OTHER])
+        if isinstance(n, (ast.BoolOp, ast.Compare, ast.UnaryOp, ast.BinOp, ast.JoinedStr, ast.Tuple, ast.List,
+                          ast.Subscript, ast.Starred, ast.FormattedValue, ast.Set,
+                          ast.Dict, ast.Yield, ast.YieldFrom, ast.Await, ast.Lambda, ast.NamedExpr,
+                          ast.comprehension, ast.Slice)):
             for ch in ast.iter_child_nodes(n):
                 if isinstance(ch, (ast.expr, ast.comprehension)):
                     self.ev(ch, env)
@@ -96,6 +129,84 @@ class _Interp:
         if isinstance(n, (ast.expr_context, ast.operator, ast.boolop, ast.cmpop, ast.unaryop)):
             return frozenset([OTHER])
         self.fail(n, 'unrecognised expression')
+
+    def const_str(self, n: ast.AST, env: dict) -> str | None:
+        """The string a constant expression denotes: a literal, a module-level constant, or a local bound to one."""
+        if isinstance(n, ast.Constant) and isinstance(n.value, str):
+            return n.value
+        if isinstance(n, ast.Name):
+            if n.id in env:
+                v = env[n.id]
+                if len(v) == 1:
+                    (x,) = v
+                    if x[0] == 'str' and x[1].startswith('(PLit ['):
+                        return ''.join(chr(int(c)) for c in x[1][7:x[1].index(']')].split(';') if c)
+                return None
+            return self.consts.get(n.id)
+        d = _dotted(n)
+        if d in ('os.sep', 'os.path.sep'):
+            return '/'
+        return None
+
+    def inline(self, n: ast.Call, fn: ast.FunctionDef, env: dict, static: bool = False) -> frozenset:
+        """`self.helper(args)`: interpret the helper's body with the parameters bound to the abstract arguments; OS calls
+        and File stores inside it are recorded for the calling method; the value is the union of what it returns."""
+        if fn.name in self.stack:
+            self.fail(n, f'recursive helper {fn.name}')
+        if len(self.stack) > 4:
+            self.fail(n, 'helpers nested too deeply')
+        a = fn.args
+        if a.vararg or a.kwarg or a.posonlyargs or any(isinstance(x, ast.Starred) for x in n.args) \
+                or any(k.arg is None for k in n.keywords):
+            self.fail(n, f'call of helper {fn.name} with * / ** arguments')
+        if any(isinstance(x, (ast.Yield, ast.YieldFrom)) for x in ast.walk(fn)):
+            self.fail(n, f'helper {fn.name} is a generator')
+        decs = [_dotted(d.func if isinstance(d, ast.Call) else d) for d in fn.decorator_list]
+        static = static or 'staticmethod' in decs
+        params = a.args[(0 if static else 1):] + a.kwonlyargs
+        names = [p.arg for p in params]
+        inner: dict[str, frozenset] = {}
+        pos_defaults = dict(zip([p.arg for p in a.args][len(a.args) - len(a.defaults):], a.defaults))
+        kw_defaults = {p.arg: dflt for p, dflt in zip(a.kwonlyargs, a.kw_defaults) if dflt is not None}
+        for name, dflt in {**pos_defaults, **kw_defaults}.items():
+            inner[name] = self.ev(dflt, {})
+        npos = len(a.args) - (0 if static else 1)
+        if len(n.args) > npos:
+            self.fail(n, f'too many positional arguments for helper {fn.name}')
+        for p, arg in zip(names, n.args):
+            inner[p] = self.ev(arg, env)
+        for k in n.keywords:
+            if k.arg not in names:
+                self.fail(n, f'unknown keyword {k.arg} for helper {fn.name}')
+            inner[k.arg] = self.ev(k.value, env)
+        for p in names:
+            if p not in inner:
+                self.fail(n, f'helper {fn.name}: parameter {p} not supplied')
+        self.stack.append(fn.name)
+        self.returns.append([])
+        body = [s for s in fn.body if not (isinstance(s, ast.Expr) and isinstance(s.value, ast.Constant))]
+        self.block(body, inner)
+        rets = self.returns.pop()
+        self.stack.pop()
+        out: frozenset = frozenset()
+        for r in rets:
+            out |= r
+        return out or frozenset([OTHER])
+
+    def elements(self, it: ast.AST, env: dict) -> frozenset:
+        """What a loop variable over `it` holds: the members of a tuple / list / set display, strings derived from
+        os.walk for an os.walk result, File handles for a walk_folder of a chain member, otherwise unknown."""
+        if isinstance(it, (ast.Tuple, ast.List, ast.Set)) and not any(isinstance(e, ast.Starred) for e in it.elts):
+            out: frozenset = frozenset()
+            for e in it.elts:
+                out |= self.ev(e, env)
+            return out or frozenset([OTHER])
+        v = self.ev(it, env)
+        if v == frozenset([S('PWalked')]):
+            return v
+        if self.chain and v == frozenset([OTHER]) and self._iter_yields_handles(it):
+            return frozenset([HANDLE])
+        return frozenset([OTHER])
 
     def strs(self, vals: frozenset, node: ast.AST, what: str) -> list[str]:
         out = []
@@ -113,13 +224,21 @@ class _Interp:
         args = n.args
         # --- OS access
         if d in ACCESS:
-            if not args or n.keywords and any(k.arg in ('file', 'path', 'top') for k in n.keywords):
-                self.fail(n, 'file-system call without positional path')
-            vals = self.ev(args[0], env)
-            for a in args[1:]:
+            if any(isinstance(a, ast.Starred) for a in args) or any(k.arg is None for k in n.keywords):
+                self.fail(n, 'file-system call with * / ** arguments')
+            pathkw = [k for k in n.keywords if k.arg in PATH_KEYWORDS.get(d, ())]
+            if args and not pathkw:
+                parg, rest = args[0], args[1:]
+            elif not args and len(pathkw) == 1:
+                parg, rest = pathkw[0].value, []           # open(file=...), os.walk(top=...), os.stat(path=...)
+            else:
+                self.fail(n, 'file-system call whose path argument is not recognised')
+            vals = self.ev(parg, env)
+            for a in rest:
                 self.ev(a, env)
             for k in n.keywords:
-                self.ev(k.value, env)
+                if k not in pathkw:
+                    self.ev(k.value, env)
             for p in self.strs(vals, n, f'path argument of {d}'):
                 self.sites.append((d, 'File' if 'PHandle' in p else ('walk' if 'PWalked' in p else 'str'), n.lineno, p))
             return frozenset([S('PWalked')]) if d == 'os.walk' else frozenset([OTHER])
@@ -128,7 +247,7 @@ class _Interp:
             if d not in PURE_OS:
                 self.fail(n, f'unclassified call {d}')
         # --- recognised string functions
-        if d == 'self._resolve_path' and len(args) == 1 and not n.keywords:
+        if d == 'self.' + self.resolve and len(args) == 1 and not n.keywords:
             ps = self.strs(self.ev(args[0], env), n, 'argument of _resolve_path')
             self.validated += ps
             return frozenset(S(f'(PResolve {p})') for p in ps)
@@ -149,10 +268,17 @@ class _Interp:
             if any(v[0] == 'str' and 'PWalked' in v[1] for s in vs for v in s):
                 return frozenset([S('PWalked')])
             return frozenset([OTHER])
+        if (not self.chain and isinstance(n.func, ast.Attribute) and isinstance(n.func.value, ast.Name)
+                and n.func.value.id == 'self' and n.func.attr in self.helpers):
+            return self.inline(n, self.helpers[n.func.attr], env)
+        # a function defined at module level (a helper moved out of the class): its body runs in place of the call, so an
+        # OS call inside it is a site of the calling method
+        if isinstance(n.func, ast.Name) and n.func.id not in env and n.func.id in self.module_funcs:
+            return self.inline(n, self.module_funcs[n.func.id], env, static=True)
         if isinstance(n.func, ast.Attribute):
             f = n.func
-            if (f.attr == 'replace' and len(args) == 2 and isinstance(args[0], ast.Constant) and args[0].value == '\\'
-                    and isinstance(args[1], ast.Constant) and args[1].value == '/'):
+            if (f.attr == 'replace' and len(args) == 2 and not n.keywords and self.const_str(args[0], env) == '\\'
+                    and self.const_str(args[1], env) == '/'):
                 base = self.ev(f.value, env)
                 if OTHER in base or HANDLE in base:
                     return frozenset([OTHER])
@@ -214,6 +340,24 @@ class _Interp:
             return (t.args[0].id, neg)
         return None
 
+    def narrow(self, test: ast.AST, env: dict) -> tuple[dict, dict, bool, bool]:
+        """Environments of the two outcomes of a test and whether each outcome is possible; `isinstance(x, File)` (also
+        negated) splits the alternatives of x, any other test is evaluated for its accesses and splits nothing."""
+        nar = self.isinstance_file(test)
+        et, ef = dict(env), dict(env)
+        if nar is None:
+            self.ev(test, env)
+            return et, ef, True, True
+        var, neg = nar
+        cur = env.get(var, frozenset([OTHER]))
+        yes, no = frozenset(v for v in cur if v == HANDLE), frozenset(v for v in cur if v != HANDLE)
+        if OTHER in cur:
+            yes = frozenset([HANDLE])
+        if neg:
+            yes, no = no, yes
+        et[var], ef[var] = yes, no
+        return et, ef, bool(yes), bool(no)
+
     def block(self, stmts: list[ast.stmt], env: dict | None) -> dict | None:
         for st in stmts:
             if env is None:
@@ -252,8 +396,9 @@ class _Interp:
             self.bind(st.target, frozenset([OTHER]), env)
             return env
         if isinstance(st, ast.Return):
-            if st.value is not None:
-                self.ev(st.value, env)
+            v = self.ev(st.value, env) if st.value is not None else frozenset([OTHER])
+            if self.returns:
+                self.returns[-1].append(v)
             return None
         if isinstance(st, ast.Raise):
             if st.exc is not None:
@@ -262,21 +407,9 @@ class _Interp:
         if isinstance(st, (ast.Pass, ast.Continue, ast.Break, ast.Global, ast.Nonlocal, ast.Import, ast.ImportFrom)):
             return env
         if isinstance(st, ast.If):
-            nar = self.isinstance_file(st.test)
-            et, ef = dict(env), dict(env)
-            if nar is not None:
-                var, neg = nar
-                cur = env.get(var, frozenset([OTHER]))
-                yes, no = frozenset(v for v in cur if v == HANDLE), frozenset(v for v in cur if v != HANDLE)
-                if OTHER in cur:
-                    yes = frozenset([HANDLE])
-                if neg:
-                    yes, no = no, yes
-                et[var], ef[var] = yes, no
-            else:
-                self.ev(st.test, env)
-            out_t = self.block(st.body, et) if not (nar and not et[nar[0]]) else None
-            out_f = self.block(st.orelse, ef) if not (nar and not ef[nar[0]]) else None
+            et, ef, live_t, live_f = self.narrow(st.test, env)
+            out_t = self.block(st.body, et) if live_t else None
+            out_f = self.block(st.orelse, ef) if live_f else None
             return self.merge(out_t, out_f)
         if isinstance(st, ast.For):
             it = st.iter
@@ -286,10 +419,7 @@ class _Interp:
                 env[st.target.elts[0].id] = frozenset([OTHER])
                 env[st.target.elts[1].id] = frozenset([S('PPrefix')])
             else:
-                v = self.ev(it, env)
-                self.bind(st.target, v if v == frozenset([S('PWalked')]) else
-                          (frozenset([HANDLE]) if self.chain and v == frozenset([OTHER]) and self._iter_yields_handles(it)
-                           else frozenset([OTHER])), env)
+                self.bind(st.target, self.elements(it, env), env)
             # two passes reach the fixed point for these loop bodies (values only grow)
             e1 = self.merge(env, self.block(st.body, dict(env)))
             e2 = self.merge(e1, self.block(st.body, dict(e1)))
@@ -327,6 +457,11 @@ class _Interp:
             setattr(self, name, list(dict.fromkeys(getattr(self, name))))
 
 
+def _is_called(cls: ast.ClassDef, attr: ast.Attribute) -> bool:
+    """Is this `self.name` node the function of a call?"""
+    return any(isinstance(x, ast.Call) and x.func is attr for x in ast.walk(cls))
+
+
 def _methods(cls: ast.ClassDef):
     return [f for f in cls.body if isinstance(f, (ast.FunctionDef, ast.AsyncFunctionDef))]
 
@@ -338,10 +473,45 @@ def translate() -> tuple[str, dict]:
         if need not in classes:
             raise TranslateError(f'filesys.py: class {need} not found')
     raw_sites, raw_stores, val_stored = [], [], []
+    # module-level string constants (NAME = 'literal', bound once) may be used in place of the literal
+    consts: dict[str, str] = {}
+    bound: dict[str, int] = {}
+    for st in tree.body:
+        for t in (st.targets if isinstance(st, ast.Assign) else [st.target] if isinstance(st, (ast.AnnAssign, ast.AugAssign)) else []):
+            for nm in ast.walk(t):
+                if isinstance(nm, ast.Name):
+                    bound[nm.id] = bound.get(nm.id, 0) + 1
+        if isinstance(st, (ast.Assign, ast.AnnAssign)) and isinstance(st.value, ast.Constant) and isinstance(st.value.value, str):
+            t = st.targets[0] if isinstance(st, ast.Assign) and len(st.targets) == 1 else getattr(st, 'target', None)
+            if isinstance(t, ast.Name):
+                consts[t.id] = st.value.value
+    consts = {k: v for k, v in consts.items() if bound.get(k) == 1}
+    # methods of RawFileSystem called as `self.m(...)` are inlined at the call (helpers extracted from the public methods)
+    rname = resolve_method_name(classes['RawFileSystem'])
+    raw_methods = {fn.name: fn for fn in _methods(classes['RawFileSystem'])}
+    helpers: dict = {k: v for k, v in raw_methods.items() if k not in ('__init__', rname, '__repr__')}
+    module_funcs = {n.name: n for n in tree.body if isinstance(n, ast.FunctionDef)}
+    helpers['=module'] = module_funcs
+    inside_raw = {id(x) for x in ast.walk(classes['RawFileSystem'])}
+    used_outside = {x.attr for x in ast.walk(tree) if isinstance(x, ast.Attribute) and id(x) not in inside_raw}
+    # (calls made by the methods interpreted below: a helper used only by _resolve_path / __init__, which the guard
+    # translator reads, is interpreted on its own here so that an OS call inside it is still a site)
+    called_inside = {x.func.attr for fn in _methods(classes['RawFileSystem']) if fn.name not in ('__init__', '__repr__', rname)
+                     for x in ast.walk(fn) if isinstance(x, ast.Call)
+                     and isinstance(x.func, ast.Attribute) and isinstance(x.func.value, ast.Name) and x.func.value.id == 'self'}
+    inherited = {f.name for f in _methods(classes['FileSystem'])}
+    # a private helper (not part of the FileSystem protocol, never mentioned outside the class) whose every use is an
+    # inlined `self.helper(...)` call is analysed at its call sites only
+    private_helpers = {k for k in helpers if k.startswith('_') and not k.startswith('__') and k not in inherited
+                       and k not in used_outside and k in called_inside}
+    for node in ast.walk(classes['RawFileSystem']):          # `self.helper` used other than by calling it: not inlinable
+        if isinstance(node, ast.Attribute) and isinstance(node.value, ast.Name) and node.value.id == 'self' \
+                and node.attr in private_helpers:
+            private_helpers.discard(node.attr) if not _is_called(classes['RawFileSystem'], node) else None
     for fn in _methods(classes['RawFileSystem']):
-        if fn.name in ('__init__', '__repr__', '_resolve_path'):
+        if fn.name in ('__init__', '__repr__', rname) or fn.name in private_helpers:
             continue            # __init__/_resolve_path are translated by c18_guard; they contain no OS access
-        it = _Interp('RawFileSystem', fn, chain=False)
+        it = _Interp('RawFileSystem', fn, chain=False, helpers=helpers, consts=consts, resolve=rname)
         it.run()
         for callee, branch, line, p in it.sites:
             raw_sites.append((fn.name, callee, branch, p, line))
@@ -353,7 +523,7 @@ def translate() -> tuple[str, dict]:
         raise TranslateError('filesys.py: RawFileSystem has no recognised file-system access site')
     # __init__ / _resolve_path / __repr__ must not touch the OS themselves
     for fn in _methods(classes['RawFileSystem']):
-        if fn.name in ('__init__', '__repr__', '_resolve_path'):
+        if fn.name in ('__init__', '__repr__', rname):
             for node in ast.walk(fn):
                 if isinstance(node, ast.Call) and _dotted(node.func) in ACCESS:
                     raise TranslateError(f'filesys.py:{node.lineno}: RawFileSystem.{fn.name} touches the file system')
@@ -371,7 +541,7 @@ def translate() -> tuple[str, dict]:
     for fn in _methods(classes['FileSystemChain']):
         if fn.name in ('__init__', '__repr__', '__eq__', '__hash__', 'add_sys', 'get_system'):
             continue
-        it = _Interp('FileSystemChain', fn, chain=True)
+        it = _Interp('FileSystemChain', fn, chain=True, helpers={'=module': module_funcs}, consts=consts)
         it.run()
         if it.sites:
             other_sites += [('FileSystemChain', fn.name, c, ln) for c, _, ln, _ in it.sites]
@@ -379,6 +549,9 @@ def translate() -> tuple[str, dict]:
         chain_deleg += [(fn.name, m) for m in it.delegations]
     if not chain_calls:
         raise TranslateError('filesys.py: FileSystemChain makes no recognised call into its members')
+
+    wrappers = wrapper_census(tree)
+    shared = shared_state_census(tree)
 
     def site(m, c, b, p):
         return f'  {{| st_method := "{m}"; st_callee := "{c}"; st_branch := "{b}"; st_arg := {p} |}}'
@@ -397,6 +570,12 @@ def translate() -> tuple[str, dict]:
         '(* OS-touching calls inside File / FileSystem / FileSystemChain themselves *)',
         'Definition other_sites : list (string * string * string) := [',
         ';\n'.join(f'  ("{c}", "{m}", "{d}")' for c, m, d, _ in other_sites), '].',
+        '(* decorators / rebindings / attribute hooks on methods of File, FileSystem, RawFileSystem, FileSystemChain *)',
+        'Definition method_wrappers : list (string * string * string) := [',
+        ';\n'.join(f'  ("{c}", "{m}", "{_coq_ident(w)}")' for c, m, w in wrappers), '].',
+        '(* state that outlives a call and is visible to several file-system objects (module / class level tables, mutable defaults) *)',
+        'Definition shared_mutable_state : list (string * string * string) := [',
+        ';\n'.join(f'  ("{_coq_ident(c)}", "{_coq_ident(m)}", "{_coq_ident(w)}")' for c, m, w in shared), '].',
         '(* calls of FileSystemChain into a member system with a string argument *)',
         'Definition chain_calls : list ccall := [',
         ';\n'.join(f'  {{| cc_method := "{m}"; cc_member := "{mm}"; cc_arg := {p} |}}' for m, mm, p in chain_calls), '].',
@@ -404,7 +583,8 @@ def translate() -> tuple[str, dict]:
     ]
     side = {'raw_sites': [list(s) for s in raw_sites], 'raw_stores': [list(s) for s in raw_stores],
             'validated_then_stored': [list(s) for s in val_stored], 'other_sites': [list(s) for s in other_sites],
-            'chain_calls': [list(s) for s in chain_calls], 'chain_handle_delegations': [list(s) for s in chain_deleg],
+            'chain_calls': [list(s) for s in chain_calls], 'method_wrappers': [list(w) for w in wrappers], 'shared_mutable_state': [list(w) for w in shared],
+            'inlined_private_helpers': sorted(private_helpers), 'module_string_constants_used': sorted(consts), 'chain_handle_delegations': [list(s) for s in chain_deleg],
             'digest': ast_digest(classes['RawFileSystem'])[:12] + '/' + ast_digest(classes['FileSystemChain'])[:12]}
     return '\n'.join(lines), side
 
